@@ -86,6 +86,13 @@ class C15(Case):
                 rows = Q.rows_of(list(q.evaluate()), sel, dict(sp, form="entity" if len(sel) == 1 else "set_of"), pools)
                 data["composed"] = rows
                 out["composed"] = Q.view(rows, sp)
+                if sp.get("twice"):
+                    it = q.evaluate()     # an abandoned iteration, then a complete re-evaluation of the same query object
+                    next(it, None)
+                    it.close()
+                    rows = Q.rows_of(list(q.evaluate()), sel, dict(sp, form="entity" if len(sel) == 1 else "set_of"), pools)
+                    data["composed_again"] = rows
+                    out["composed_again"] = Q.view(rows, sp)
                 qf, self_, _ = Q.build_query(dict(sp, cond=flat, form="entity" if len(sp["select"]) == 1 else "set_of"), pools)
                 rows = Q.rows_of(list(qf.evaluate()), self_, dict(sp, form="entity" if len(sp["select"]) == 1 else "set_of"), pools)
                 data["flattened"] = rows
@@ -139,7 +146,7 @@ class C15(Case):
             def sat(sigma):
                 return Q.holds(alg, data["flat"], Q.env_of(sigma, sp, pools), allobjs)
             obs = []
-            for form in ("composed", "flattened"):
+            for form in [f for f in ("composed", "composed_again", "flattened") if f in data]:
                 obs += Q.row_obligations(alg, data[form], sp, pools, sat, demand_no_dup=False, prefix=form + ":")
             return obs
         xs = data["xs"]
@@ -230,6 +237,12 @@ def shapes(tier, seed):
             out.append(dict(P, tree=["|", ["plain", c_], ["&", sx(a_), ["plain", b_]]]))
             out.append(dict(P, tree=["&", sx(a_), ["plain", c_]]))
             out.append(dict(P, tree=["|", sx(a_), ["plain", c_]]))
+    # re-evaluation of the composed query (state inside nested quantifiers must be reset as well)
+    extra = []
+    for s_ in out:
+        if s_.get("kind") == "conn" and rnd.random() < 0.2:
+            extra.append(dict(s_, twice=True))
+    out += extra
     # operand position
     for quant in ("an", "the"):
         for c in core[:4] + [["and", core[0], core[1]]]:
